@@ -278,22 +278,110 @@ theorem forCluster_some {w : World} {id : Str} {a : Agg} (h : w.forCluster id = 
   | none => rw [hf] at h; cases h
   | some c =>
     rw [hf] at h
-    cases h
-    refine ⟨rfl, ?_⟩
-    intro x hx
-    simp only [List.mem_append] at hx
-    cases hx with
-    | inl hx =>
-      split at hx
-      · simp at hx; subst hx; exact ⟨(findCluster_some hf).1, Or.inl (findCluster_some hf).2⟩
-      · simp at hx
-    | inr hx =>
-      cases hg : findCluster w.configCluster w.clusters with
-      | none => rw [hg] at hx; simp at hx
-      | some k =>
-        rw [hg] at hx
-        simp at hx
-        subst hx
-        exact ⟨(findCluster_some hg).1, Or.inr (findCluster_some hg).2⟩
+    simp only at h
+    split at h
+    · cases h
+    · cases h
+      refine ⟨rfl, ?_⟩
+      intro x hx
+      simp only [List.mem_append] at hx
+      cases hx with
+      | inl hx =>
+        unfold ownList at hx
+        split at hx
+        · simp at hx; subst hx; exact ⟨(findCluster_some hf).1, Or.inl (findCluster_some hf).2⟩
+        · simp at hx
+      | inr hx =>
+        unfold cfgList at hx
+        cases hg : findCluster w.configCluster w.clusters with
+        | none => rw [hg] at hx; simp at hx
+        | some k =>
+          rw [hg] at hx
+          simp at hx
+          subst hx
+          exact ⟨(findCluster_some hg).1, Or.inr (findCluster_some hg).2⟩
+
+/-! ### Appending a separator-free suffix -/
+
+/-- Append `s` to the last element of a list of strings. -/
+def appendLast : List Str → Str → List Str
+  | [], s => [s]
+  | [x], s => [x ++ s]
+  | x :: y :: r, s => x :: appendLast (y :: r) s
+
+/-- Splitting `a ++ s` when `s` has no separator: the split of `a` with `s` appended to its last segment. -/
+theorem split_append_nosep (sep : Char) (a s : Str) (h : sep ∉ s) :
+    split sep (a ++ s) = appendLast (split sep a) s := by
+  induction a with
+  | nil => simp [split, appendLast, split_of_not_mem sep s h]
+  | cons c cs ih =>
+    by_cases hc : c = sep
+    · subst hc
+      simp only [List.cons_append, split_cons_sep, ih]
+      cases hs : split c cs with
+      | nil => exact absurd hs (split_ne_nil _ _)
+      | cons x r => simp [appendLast]
+    · obtain ⟨hd, tl, h1, h2⟩ := split_cons_ne sep c cs hc
+      obtain ⟨hd', tl', h1', h2'⟩ := split_cons_ne sep c (cs ++ s) hc
+      simp only [List.cons_append]
+      rw [h2', h2]
+      rw [ih, h1] at h1'
+      cases tl with
+      | nil =>
+        simp only [appendLast, List.cons.injEq] at h1' ⊢
+        obtain ⟨e1, e2⟩ := h1'
+        subst e1; subst e2
+        simp
+      | cons y r =>
+        simp only [appendLast, List.cons.injEq] at h1' ⊢
+        obtain ⟨e1, e2⟩ := h1'
+        subst e1; subst e2
+        simp
+
+/-- If `u` (separator-free) and `v` (containing the separator) start the same string, `u` is a prefix of `v`. -/
+theorem prefix_of_no_sep (sep : Char) {u v a b : Str} (hu : sep ∉ u) (hv : sep ∈ v) (h : u ++ a = v ++ b) :
+    ∃ w, v = u ++ w := by
+  induction u generalizing v with
+  | nil => exact ⟨v, rfl⟩
+  | cons c us ih =>
+    cases v with
+    | nil => cases hv
+    | cons d vs =>
+      simp only [List.cons_append, List.cons.injEq] at h
+      obtain ⟨hcd, ht⟩ := h
+      subst hcd
+      have hvs : sep ∈ vs := by
+        cases hv with
+        | head => exact absurd List.mem_cons_self hu
+        | tail _ hm => exact hm
+      obtain ⟨w, hw⟩ := ih (fun m => hu (List.mem_cons_of_mem _ m)) hvs ht
+      exact ⟨w, by rw [hw]; rfl⟩
+
+/-- A string `p ++ res` that ends in the separator-free `s`, where `res` contains the separator: the suffix lies
+    inside `res`. -/
+theorem suffix_inside (sep : Char) {p res base s : Str} (hs : sep ∉ s) (hres : sep ∈ res)
+    (h : p ++ res = base ++ s) : ∃ res', res = res' ++ s ∧ base = p ++ res' := by
+  have h2 := congrArg List.reverse h
+  simp only [List.reverse_append] at h2
+  obtain ⟨w, hw⟩ := prefix_of_no_sep sep (u := s.reverse) (v := res.reverse) (by simpa using hs) (by simpa using hres) h2.symm
+  have hr : res = w.reverse ++ s := by
+    have := congrArg List.reverse hw
+    simpa using this
+  refine ⟨w.reverse, hr, ?_⟩
+  rw [hr, ← List.append_assoc] at h
+  exact (List.append_cancel_right h).symm
+
+theorem sep_mem_of_split_two {sep : Char} {res x y : Str} {r : List Str} (h : split sep res = x :: y :: r) :
+    sep ∈ res := by
+  apply Classical.byContradiction
+  intro hn
+  rw [split_of_not_mem sep res hn] at h
+  cases h
+
+theorem cutPrefix_gateway_kubernetes (r : Str) : cutPrefix (gatewayURI ++ r) kubernetesURI = none := by
+  simp [cutPrefix, gatewayURI, gatewayTy, kubernetesURI, kubernetesTy, uriSep]
+
+theorem cutPrefix_gateway_configmap (r : Str) : cutPrefix (gatewayURI ++ r) configmapURI = none := by
+  simp [cutPrefix, gatewayURI, gatewayTy, configmapURI, configmapTy, uriSep]
 
 end IstioModel.C11
